@@ -200,6 +200,11 @@ var vtextSeeds = []vseed{
 	{ast.FormatHTML, false, "<script></scri", ""},
 	{ast.FormatHTML, false, "<style></sty", ""},
 	{ast.FormatHTML, false, "<script>'</scri", ""},
+	{ast.FormatHTML, false, "<script type=\"text/{{ a }}", ""},
+	{ast.FormatHTML, false, "<script type={{ a }}", ""},
+	{ast.FormatHTML, false, "<style type=\"{{ a }}", ""},
+	{ast.FormatHTML, false, "<a href=\"{{ a }}", ""},
+	{ast.FormatHTML, false, "<p class={{ a }}", ""},
 	{ast.FormatMarkdown, false, "http://", ""},
 	{ast.FormatMarkdown, false, "    ", ""},
 	{ast.FormatMarkdown, false, "\t", ""},
